@@ -285,6 +285,10 @@ where
     /// not.   
     async fn get_call_or_create(&self, key: &str) -> (Arc<Call<T, E>>, bool) {
         let mut m = self.call_map.lock().await;
+        // Verification hook: a schedule point while the map lock is held (the lock is asynchronous, so a caller on
+        // another thread that wants it is pending, not blocked).
+        #[cfg(xet_verif)]
+        crate::verif::point("singleflight:map_locked:get_or_create");
         if let Some(c) = m.get(key).cloned() {
             (c, false)
         } else {
@@ -299,6 +303,8 @@ where
     /// then an error is returned.
     async fn remove_call(&self, key: &str) -> SingleflightResult<(), E> {
         let mut m = self.call_map.lock().await;
+        #[cfg(xet_verif)]
+        crate::verif::point("singleflight:map_locked:remove");
         m.remove(key).ok_or(SingleflightError::CallMissing)?;
         Ok(())
     }
